@@ -139,7 +139,11 @@ fn run_worker(
         }
     }
     let _ = std::fs::remove_file(&out_path);
-    let exe = std::env::current_exe().expect("current exe");
+    let mut exe = std::env::current_exe().expect("current exe");
+    if std::env::var("CTESIM_TEST_SPAWN_FAIL").is_ok() {
+        // selftest of the harness-error path
+        exe = std::path::PathBuf::from("/nonexistent/ctesim");
+    }
     let mut cmd = Command::new(exe);
     cmd.arg("worker")
         .arg("--engine")
@@ -182,7 +186,33 @@ fn run_worker(
             Ok(())
         });
     }
-    let mut child = cmd.spawn().expect("spawn worker");
+    let mut child = {
+        let mut tries = 0;
+        loop {
+            match cmd.spawn() {
+                Ok(c) => break c,
+                Err(e) => {
+                    tries += 1;
+                    if tries >= 6 {
+                        note_harness_error(&format!("worker could not be started: {}", e));
+                        let _ = std::fs::remove_file(&jobs_path);
+                        let _ = std::fs::remove_file(&out_path);
+                        let _ = std::fs::remove_file(&err_path);
+                        let _ = std::fs::remove_dir_all(&wdir);
+                        return WorkerRun {
+                            results: BTreeMap::new(),
+                            tainted_after: None,
+                            in_flight: None,
+                            timed_out: None,
+                            status: format!("HARNESS: spawn failed: {}", e),
+                            stderr_tail: String::new(),
+                        };
+                    }
+                    std::thread::sleep(Duration::from_millis(200));
+                }
+            }
+        }
+    };
     // backstop: the worker's own watchdog should fire first
     let backstop = Duration::from_millis(opts.job_timeout_ms * (jobs.len() as u64 + 2) + 60_000);
     let t0 = Instant::now();
@@ -263,6 +293,23 @@ fn run_worker(
     run
 }
 
+static HARNESS_ERRORS: Mutex<Vec<(String, u64)>> = Mutex::new(Vec::new());
+
+/// Something went wrong in the simulator itself (a worker could not be started, a job was lost):
+/// the check must end with exit status 2, never with a verdict.
+pub fn note_harness_error(msg: &str) {
+    let mut h = HARNESS_ERRORS.lock().unwrap();
+    if let Some(e) = h.iter_mut().find(|e| e.0 == msg) {
+        e.1 += 1;
+    } else if h.len() < 40 {
+        h.push((msg.to_string(), 1));
+    }
+}
+
+pub fn harness_errors() -> Vec<String> {
+    HARNESS_ERRORS.lock().unwrap().iter().map(|(m, n)| format!("{} (x{})", m, n)).collect()
+}
+
 /// Run all chunks; returns one outcome per job index.
 pub fn run_chunks(chunks: Vec<Chunk>, opts: &RunOpts, scratch: &Path) -> BTreeMap<usize, Outcome> {
     let total_chunks = chunks.len();
@@ -280,6 +327,10 @@ pub fn run_chunks(chunks: Vec<Chunk>, opts: &RunOpts, scratch: &Path) -> BTreeMa
         let scratch = scratch.to_path_buf();
         let done_chunks = done_chunks.clone();
         handles.push(std::thread::spawn(move || loop {
+            // once the simulator itself has failed there is no verdict to be had: stop dispatching
+            if !HARNESS_ERRORS.lock().unwrap().is_empty() {
+                break;
+            }
             let next = queue.lock().unwrap().pop();
             let (ci, chunk) = match next {
                 Some(c) => c,
@@ -321,6 +372,7 @@ pub fn run_chunks(chunks: Vec<Chunk>, opts: &RunOpts, scratch: &Path) -> BTreeMa
                 remaining.retain(|(i, _)| !done.contains(i));
                 if remaining.len() == before {
                     // the worker made no progress at all (could not even start): harness error
+                    note_harness_error(&format!("worker made no progress: {} | {}", run.status, run.stderr_tail));
                     let mut res = results.lock().unwrap();
                     for (i, _) in &remaining {
                         res.insert(
@@ -337,7 +389,9 @@ pub fn run_chunks(chunks: Vec<Chunk>, opts: &RunOpts, scratch: &Path) -> BTreeMa
         }));
     }
     for h in handles {
-        let _ = h.join();
+        if h.join().is_err() {
+            note_harness_error("an orchestrator thread panicked");
+        }
     }
     Arc::try_unwrap(results).unwrap().into_inner().unwrap()
 }
